@@ -21,6 +21,9 @@ def answer (adaptor : String) (write : Bool) (l : List Int) (steps : List Step) 
 
 def model (f : List String) : String :=
   match f with
+  -- a lazy range of n elements (element k is k), n beyond 2^32: nothing is enumerated here — by
+  -- `Props.C20.enumerate_visits` visit k carries index k for every length
+  | ["ebig", _kind, _cat, _write, n] => "visited=" ++ n ++ " firstbad=_"
   | [adaptor, _kind, _cat, write, vals] =>
     match ints? vals with
     | some l =>
@@ -40,6 +43,9 @@ def model (f : List String) : String :=
 after writing, every element updated once. -/
 def judge (f : List String) (ans : String) : String :=
   match f with
+  | ["ebig", _kind, cat, _write, n] =>
+    let feat := "\tebig-" ++ cat ++ " len3 nt"
+    if ans = "visited=" ++ n ++ " firstbad=_" then "ok" ++ feat else "bad:" ++ ans ++ feat
   | [adaptor, kind, cat, write, vals] =>
     match ints? vals with
     | some l =>
